@@ -315,8 +315,14 @@ impl<Tx: Debug + ProstMessage + Default, Rx: Debug + ProstMessage + Default> Cha
 
         let mut count = 0usize;
         loop {
-            let size = self.front_buf.available_space();
+            let mut size = self.front_buf.available_space();
             trace!("channel available space: {}", size);
+            if size == 0 {
+                // bytes of already-returned messages may still sit in front of
+                // the pending data: reclaim them before growing or giving up
+                self.front_buf.shift();
+                size = self.front_buf.available_space();
+            }
             if size == 0 {
                 // try to grow the buffer before giving up
                 if let Some(new_size) = self.grow_size(self.front_buf.capacity()) {
@@ -472,6 +478,12 @@ impl<Tx: Debug + ProstMessage + Default, Rx: Debug + ProstMessage + Default> Cha
     fn read_message_nonblocking(&mut self) -> Result<Rx, ChannelError> {
         if let Some(message) = self.try_read_delimited_message()? {
             self.try_shrink_front_buf();
+            // Consuming a message frees room in the front buffer: if `readable()`
+            // had dropped the READABLE interest because the buffer was full, take
+            // it back now. Otherwise the caller's next `readable()` is refused and
+            // `extract_messages` returns with received bytes left in the socket,
+            // which an edge-triggered poll never reports again.
+            self.interest.insert(Ready::READABLE);
             return Ok(message);
         }
 
